@@ -33,7 +33,9 @@ Values(f) ==
                                                                            \* exception that has no message text
       [] f = "attrs" -> IF Rich THEN {"none", "str", "bool_int_float", "sequence", "all", "awkward"}
                         ELSE {"none", "all", "awkward"}    \* awkward: valid attribute values the wire format cannot carry as they
-                                                           \* are (a None element of a sequence, an int beyond 64 bits): the
+                                                           \* are (a None element of a sequence, an int beyond 64 bits; and
+                                                           \* tracepoint arguments given as numbers or booleans by a
+                                                           \* registration in code - the wire carries their text): the
                                                            \* snapshot is delivered all the same
       [] f = "log_msg" -> {"none", "text"}
       [] f = "auth" -> {"none", "basic", "custom", "failing"}
